@@ -282,6 +282,65 @@ class Body:
     def back_edges(self):
         return [(a, b) for a in self.reachable(0) for b in self.succ[a] if self.dominates(b, a)]
 
+    # ---- locals of a given type live at a suspension point ------------------
+    def guard_locals_at_yields(self, is_guard_ty):
+        """[(yield bb, local, def bb)]: locals whose type satisfies is_guard_ty that may be initialised (assigned, not yet
+        dropped or moved out) when the coroutine suspends: forward reachability from each definition, cut at drop/move of
+        that local. Covers guards obtained by a plain call (`m.lock()`) and by an awaited one (`m.lock().await`)."""
+        out = []
+        locs = [i for i, l in enumerate(self.j.get("locals", [])) if is_guard_ty(l.get("ty", ""))]
+        if not locs:
+            return out
+
+        def moves_out(x, l):
+            # an operand `move _l` (whole local) anywhere in x
+            if isinstance(x, dict):
+                if x.get("k") == "move" and isinstance(x.get("place"), dict) and x["place"].get("l") == l and not x["place"].get("p"):
+                    return True
+                return any(moves_out(v, l) for v in x.values())
+            if isinstance(x, list):
+                return any(moves_out(v, l) for v in x)
+            return False
+        for l in locs:
+            defs = []       # (bb, stmt index or None for the terminator's destination)
+            for bb, blk in enumerate(self.blocks):
+                for si, st in enumerate(blk["stmts"]):
+                    if st["k"] == "assign" and st["place"]["l"] == l and not st["place"]["p"]:
+                        defs.append((bb, si))
+                t = blk["term"]
+                if t["k"] == "call" and t.get("dest") and t["dest"]["l"] == l and not t["dest"]["p"]:
+                    defs.append((bb, None))
+
+            def killed_in(bb, from_si):
+                blk = self.blocks[bb]
+                for si in range(from_si, len(blk["stmts"])):
+                    if moves_out(blk["stmts"][si], l):
+                        return True
+                t = blk["term"]
+                if t["k"] == "drop" and t["place"]["l"] == l and not t["place"]["p"]:
+                    return True
+                return moves_out({k: v for k, v in t.items() if k in ("args", "op", "value")}, l)
+            for (dbb, dsi) in defs:
+                seen = set()
+                todo = []
+                if dsi is None:
+                    todo = list(self.succ[dbb])
+                elif not killed_in(dbb, dsi + 1):
+                    if self.blocks[dbb]["term"]["k"] == "yield":
+                        out.append((dbb, l, dbb))
+                    todo = list(self.succ[dbb])
+                while todo:
+                    b = todo.pop()
+                    if b in seen:
+                        continue
+                    seen.add(b)
+                    if killed_in(b, 0):
+                        continue
+                    if self.blocks[b]["term"]["k"] == "yield":
+                        out.append((b, l, dbb))
+                    todo.extend(self.succ[b])
+        return sorted(set(out))
+
     # ---- calls -----------------------------------------------------------
     def calls(self, reachable_only=True):
         """Yield (bb, term, fn) for every Call terminator with a known FnDef callee."""
